@@ -589,13 +589,15 @@ def run(ck):
 
         singles = [build(c["idx"]) for c in cases if c["kind"] == "single"]
         pairs = [build(c["idx"]) for c in cases if c["kind"] == "pair"]
+        same = [build(c["idx"]) for c in cases if c["kind"] == "same"]
+        same.sort(key=stream_key)
         singles.sort(key=stream_key)
         pairs.sort(key=stream_key)
         r_ = rng(32)
         pairs = r_.sample(pairs, min(len(pairs), ck.pick(40, 1200)))
         ck.exhaustive = False  # every atom is replayed (singles); pairs are sampled
         tid = 0
-        for reqs in singles + pairs:
+        for reqs in singles + same + pairs:
             do(reqs, tid)
             tid += 1
         ck.sample(dict(direction="spec->code", stream=[list(k) for k in stream_key(singles[0])]))
